@@ -64,7 +64,7 @@ def cases(tier, rng):
             # very small x at very large Q2 (grid reaching down to 1e-7): where the massive library overflows (F-17) the documented
             # clean-up must still hand back finite numbers
             x, q2 = cards.logu(rng, 2e-7, 1e-5), cards.logu(rng, 1e4, 1e6)
-        out.append(dict(id=f"c16-{n}", mode="lattice", kind=kind, heavy=heavy, theory=th, obs=ob, point=dict(x=x, Q2=q2, y=float(rng.uniform(0.05, 0.95))), extreme=extreme, timeout=CASE_TIMEOUT))
+        out.append(dict(id=f"c16-{n}", mode="lattice", kind=kind, heavy=heavy, theory=th, obs=ob, point=dict(x=x, Q2=q2, y=float(rng.uniform(0.05, 0.95))), extreme=extreme, bare=bool(rng.random() < 0.2), timeout=CASE_TIMEOUT))
     # domain clause
     nd = 66 if tier == "quick" else 660
     for n in range(nd):
@@ -94,6 +94,8 @@ def classify_exception(e):
 def run_case(case):
     th = cards.theory(**case["theory"])
     name = f"{case['kind']}_{case['heavy']}"
+    if case.get("bare") and case["heavy"] == "total":
+        name = case["kind"]  # a bare kind is the documented spelling of <kind>_total
     isxs = case["kind"] in cards.XSS
     p = dict(case["point"])
     xg = cards.grid(5, 4, x_min=1e-3) if not case.get("extreme") else cards.grid(7, 4, x_min=1e-7)
